@@ -8,7 +8,10 @@
 (* defined by FromSamples.tla; Do prints array + results for the driver.   *)
 (* lawok records whether the specification's own laws hold on the array    *)
 (* (probabilities sum to 1, counts total the shots, all_outcomes only adds *)
-(* zero entries, variance identity / sign, and: the statistics computed    *)
+(* zero entries, variance identity / sign, negating every value negates    *)
+(* expval / samples / counts keys and keeps the variance, the eigenvalue    *)
+(* table of a Hermitian matrix is its spectrum ascending, and: the         *)
+(* statistics computed                                                     *)
 (* from the dictionary of full-width counts equal the statistics computed  *)
 (* from the shots); the invariant SpecLaws is lawok.                       *)
 (* Arrays with at least BigBits (BigBits2) bits get the sub-list of        *)
@@ -20,8 +23,10 @@ CONSTANTS MaxW, MaxS, Stride, BigBits, Stride2, BigBits2
 VARIABLES nw, cms, sh, ix, res, lawok, ph
 vars == <<nw, cms, sh, ix, res, lawok, ph>>
 
-Init == /\ nw \in 1..MaxW /\ ph = 0 /\ sh = 0 /\ ix = <<>> /\ res = <<>> /\ lawok = TRUE
-        /\ cms = LET lst == JsonDeserialize(IOEnv.MPS_FILE)[nw] IN TLCEval([k \in 1..Len(lst) |-> TLCEval(Compile(lst[k], nw))])
+Init == /\ nw \in 1..MaxW /\ ph = 0 /\ sh = 0 /\ ix = <<>> /\ res = <<>>
+        /\ LET lst == JsonDeserialize(IOEnv.MPS_FILE)[nw] IN
+           /\ cms = TLCEval([k \in 1..Len(lst) |-> TLCEval(Compile(lst[k], nw))])
+           /\ lawok = \A k \in 1..Len(lst) : lst[k].src = "herm" => SortLaw(lst[k].ev)   \* the eigenvalue order of Hermitian matrices
 Split == /\ ph = 0 /\ ph' = 1 /\ UNCHANGED <<nw, cms, res, lawok>>
          /\ sh' \in 1..MaxS /\ \E f \in 1..Pow2(nw) : ix' = <<f>>
 
